@@ -422,10 +422,19 @@ def make_plugins(obs):
     return Logger(), Metric(name='RecMetric'), SpanProc(), Deco()
 
 
+class PushFailure(RuntimeError):
+    pass
+
+
 class Push(rig.RecPush):
-    def __init__(self, obs):
+    """recording push service; `fail` = the attempts (0-based count of pushes of DEFERRED snapshots) that raise after
+    having been recorded — a fault exactly at the completion of a deferred capture (closed / full task handler)."""
+
+    def __init__(self, obs, fail=()):
         super().__init__()
         self.obs = obs
+        self.fail = set(fail)
+        self.attempts = 0
 
     def push_snapshot(self, s):
         super().push_snapshot(s)
@@ -441,8 +450,12 @@ class Push(rig.RecPush):
                            'children': [s.var_lookup[c.vid].value for c in v.children if c.vid in s.var_lookup]}
                 cap = {'expr': w.expression, 'val': val}
         if sid in self.obs.opened:
+            n = self.attempts
+            self.attempts += 1
             self.obs.note('cap-close', s.tracepoint.id, sid=sid, open=self.obs.opened[sid], cap=cap, vars=names,
-                          snapline=(s.frames[0].line_number if s.frames else None))
+                          snapline=(s.frames[0].line_number if s.frames else None), failed=(n in self.fail))
+            if n in self.fail:
+                raise PushFailure('push of the deferred snapshot failed (attempt %d)' % n)
         else:
             self.obs.note('snap', s.tracepoint.id, vars=names, cap=cap,
                           snapline=(s.frames[0].line_number if s.frames else None),
@@ -668,6 +681,106 @@ def run_program(host, entries, mode, trace, sched=None, before=None, after=None,
     finally:
         threading.settrace(None)
     return out
+
+
+def lifecycle_plan(case):
+    """steps of a lifecycle case: the agent is installed (handler.start(): sys + threading settrace), T0 is started and
+    runs under the `first` tracepoints, the tracepoint list becomes EMPTY, the middle threads are started in that
+    window (they park before they call any host code), the `second` tracepoints are configured, the parked threads
+    run, a last thread is started and runs, the agent is shut down."""
+    n = len(case['entries'])
+    lc = case['lifecycle']
+    plan = [['install']]
+    k0 = 0
+    if lc.get('first') is not None:
+        plan += [['cfg', 'first'], ['start', 0], ['run', 0]]
+        k0 = 1
+    plan += [['cfg', 'empty']]
+    mid = list(range(k0, n - 1))
+    plan += [['start', i] for i in mid]
+    plan += [['cfg', 'second']]
+    plan += [['run', i] for i in mid]
+    plan += [['start', n - 1], ['run', n - 1], ['uninstall']]
+    return plan
+
+
+def lifecycle_tps(case, t):
+    """the tracepoints installed while thread t runs host code"""
+    lc = case['lifecycle']
+    ids = lc['first'] if (t == 'T0' and lc.get('first') is not None) else lc['second']
+    return [tp for tp in case['tps'] if tp['id'] in ids]
+
+
+def run_lifecycle(host, entries, plan, install, set_config, uninstall, before=None, after=None):
+    out = {'ret': {}, 'exc': {}, 'go': {}, 'trace_after': {}, 'idents': {}}
+    names = ['T%d' % i for i in range(len(entries))]
+    threads = {}
+    done = {}
+    for n in names:
+        out['go'][n] = queue.SimpleQueue()
+    try:
+        for step in plan:
+            if step[0] == 'install':
+                install()
+            elif step[0] == 'uninstall':
+                uninstall()
+            elif step[0] == 'cfg':
+                set_config(step[1])
+            elif step[0] == 'start':
+                n = names[step[1]]
+                fn, arg = host.entry(entries[step[1]])
+                body = _thread_body(host, n, fn, arg, out, True, after=after, before=before)
+                parked = threading.Event()
+
+                def runner(body=body, n=n, parked=parked):
+                    out['idents'][n] = threading.get_ident()
+                    parked.set()
+                    try:
+                        body()
+                    finally:
+                        done[n] = True
+                        host.arr.put(1)
+                t = threading.Thread(target=runner, name=n)
+                threads[n] = t
+                t.start()
+                if not parked.wait(60):
+                    raise core.Infra('lifecycle: thread %s did not start' % n)
+            elif step[0] == 'run':
+                n = names[step[1]]
+                for _ in range(200):
+                    if done.get(n):
+                        break
+                    out['go'][n].put(1)
+                    try:
+                        host.arr.get(True, 60)
+                    except queue.Empty:
+                        raise core.Infra('lifecycle: thread %s did not finish' % n)
+                threads[n].join(60)
+    finally:
+        threading.settrace(None)
+        for n, t in threads.items():
+            if t.is_alive():
+                for _ in range(64):
+                    out['go'][n].put(1)
+                t.join(10)
+    return out
+
+
+def on_helper_thread(fn):
+    """run fn on a short-lived thread (TriggerHandler.start/shutdown call sys.settrace for the CALLING thread: the
+    harness's own thread must not be traced by the agent)."""
+    err = []
+
+    def body():
+        try:
+            fn()
+        except BaseException as e:  # noqa: B902
+            err.append(e)
+    t = threading.Thread(target=body, name='installer')
+    t.start()
+    t.join(60)
+    if err:
+        raise err[0]
 
 
 # ------------------------------------------------------------------------------------------- reference rule
@@ -942,8 +1055,12 @@ def run_case(case, hooks=False):
             def after(name):
                 if 'r' in holder:
                     state['end_set'][name] = bool(holder['r'].handler._callbacks.is_set)
-        ref_out = run_program(host, entries, case['mode'], rec.trace, case.get('sched'),
-                              before=before, after=after, sequential=case.get('sequential', False))
+        if case.get('lifecycle'):
+            ref_out = run_lifecycle(host, entries, lifecycle_plan(case), lambda: threading.settrace(rec.trace),
+                                    lambda which: None, lambda: threading.settrace(None), before=before, after=after)
+        else:
+            ref_out = run_program(host, entries, case['mode'], rec.trace, case.get('sched'),
+                                  before=before, after=after, sequential=case.get('sequential', False))
         ref = {t: canon_events(host, ev) for t, ev in rec.events.items()}
         rec.release()
         obs = Obs(host)
@@ -955,7 +1072,7 @@ def run_case(case, hooks=False):
         import deep.processor.frame_collector as _fc
         fc_orig = _fc.time_ns
         _fc.time_ns = r._now
-        r.handler._push_service = Push(obs)
+        r.handler._push_service = Push(obs, case.get('push_fail', ()))
         holder['r'] = r
         # hermetic cases: should the thread-local store ever be process-wide again (a class-level dict keyed by
         # thread ident, D3), what earlier cases left in it must not decide this case's verdict — inheritance is
@@ -966,6 +1083,12 @@ def run_case(case, hooks=False):
             shared.clear()
         try:
             triggers = build_config(case['tps'])
+            if case.get('lifecycle'):
+                lc = case['lifecycle']
+                configs = {'empty': [], 'second': build_config([tp for tp in case['tps'] if tp['id'] in lc['second']])}
+                if lc.get('first') is not None:
+                    configs['first'] = build_config([tp for tp in case['tps'] if tp['id'] in lc['first']])
+                triggers = []
         except BaseException as e:  # noqa: B902
             return {'raised': 'building the configuration: %s: %s' % (type(e).__name__, e)}
         r.install(triggers)
@@ -975,11 +1098,20 @@ def run_case(case, hooks=False):
         def change_config(what, h=r.handler):
             if what == 'shutdown':
                 h.shutdown()         # the handler never called start(): only the trigger list is cleared
-            else:
+            elif what == 'empty':
                 h.new_config([])     # a poll that delivers no tracepoints
         host.hook_fn = change_config
-        out = run_program(host, entries, case['mode'], r.handler.trace_call, case.get('sched'),
-                          before=before, after=after, sequential=case.get('sequential', False))
+        if case.get('lifecycle'):
+            # the real installation: TriggerHandler.start() (sys.settrace + threading.settrace), config updates through
+            # TriggerHandler.new_config, TriggerHandler.shutdown() restores the hooks
+            out = run_lifecycle(host, entries, lifecycle_plan(case),
+                                lambda: on_helper_thread(r.handler.start),
+                                lambda which: r.handler.new_config(list(configs[which])),
+                                lambda: on_helper_thread(r.handler.shutdown), before=before, after=after)
+            out['hook_after'] = threading.gettrace() is None
+        else:
+            out = run_program(host, entries, case['mode'], r.handler.trace_call, case.get('sched'),
+                              before=before, after=after, sequential=case.get('sequential', False))
         effects = {t: canon_effects(host, ev) for t, ev in obs.effects.items()}
         obs.release()
         res = {'ref': ref, 'effects': effects, 'triggers': len(triggers),
@@ -987,6 +1119,8 @@ def run_case(case, hooks=False):
                'host': {'ret': out['ret'], 'exc': out['exc']},
                'trace_kept': all(out['trace_after'].values()) if out['trace_after'] else True,
                'idents': [out['idents'].get('T%d' % i) for i in range(len(entries))]}
+        if 'hook_after' in out:
+            res['hook_restored'] = out['hook_after']
         if hooks:
             res.update(state)
         return res
@@ -1002,18 +1136,35 @@ def run_case(case, hooks=False):
 
 
 
-def run_request(case, obs):
+def lifecycle_requests(case, obs):
+    """one model run per thread of a lifecycle case, each with the tracepoints installed while it ran host code"""
+    reqs = []
+    for k in range(len(case['entries'])):
+        t = 'T%d' % k
+        sub = dict(case)
+        ids = {tp['id'] for tp in lifecycle_tps(case, t)}
+        # keep the indices of the tracepoints (the model's action ids): the others are given no actions
+        r = run_request(dict(sub, lifecycle=None), obs, only=ids, thread=k)
+        reqs.append(r)
+    return {'op': 'batch', 'reqs': reqs}
+
+
+def run_request(case, obs, only=None, thread=None):
     """the model driver request for a case: tracepoints as (location, actions), the reference streams, the gate
     scripts, and an arbitrary interleaving of the threads for the global machine."""
     if 'raised' in obs:
         return None
     resp, custom = [], []
     for i, tp in enumerate(case['tps']):
+        if only is not None and tp['id'] not in only:
+            continue
         (resp if (tp.get('via') != 'custom' and not tp.get('capture')) else custom).append((i, tp))
     # same order as build_config: response, registered, directly constructed
     custom = [x for x in custom if not x[1].get('capture')] + [x for x in custom if x[1].get('capture')]
     threads = []
     for t in ['T%d' % i for i in range(len(case['entries']))]:
+        if thread is not None and t != 'T%d' % thread:
+            continue
         sc = case.get('scripts', {}).get(t, {})
         script = []
         for i, tp in enumerate(case['tps']):
